@@ -22,9 +22,20 @@ func c19Run(r *simkit.Run) {
 	disk := simdisk.New()
 	disk.NoLog = true
 
-	sys, err := openDBSys(disk, []int{0, 1, 100}[r.Draw("state_cache", 0, 2)])
+	// blocks with more records than one batch of the permanent merge holds (333)
+	manyKeys := r.Chance(1, 8) || (r.Tier == "thorough" && r.Chance(1, 4))
+
+	// cache sizes: 1 evicts at every Set (deterministically); a larger cache that evicts does so in Go map order
+	// (bluele/gcache LFU), which no seed controls - 100 never evicts with the handful of keys of a small-block run,
+	// 4000 never evicts with big blocks
+	big := 100
+	if manyKeys {
+		big = 4000
+	}
+
+	sys, err := openDBSys(disk, []int{0, 1, big}[r.Draw("state_cache", 0, 2)])
 	if sys != nil {
-		sys.bwCache = []int{0, 1, 1, 100}[r.Draw("block_write_state_cache", 0, 3)] // 1: every Set evicts (deterministically); larger evicting sizes would evict in Go map order
+		sys.bwCache = []int{0, 1, 1, big}[r.Draw("block_write_state_cache", 0, 3)]
 	}
 	if err != nil {
 		panic(err)
@@ -38,8 +49,7 @@ func c19Run(r *simkit.Run) {
 	allowRemove := r.Flag("remove_blocks")
 	gen := newDBGen(r, r.Draw("state_keys", 1, 5))
 
-	// blocks with more records than one batch of the permanent merge holds (333)
-	if r.Chance(1, 8) || (r.Tier == "thorough" && r.Chance(1, 4)) {
+	if manyKeys {
 		gen.manyKeys = 340
 	}
 
